@@ -27,7 +27,7 @@ Durings     == {"gtimer", "ptimer", "upresp", "upclose", "clientreset", "hostsdo
 Scripts == { <<"ok">>, <<"s503">>, <<"close">>, <<"hang">>, <<"gate">>, <<"gateclose">>,
              <<"close", "ok">>, <<"s503", "ok">>, <<"hang", "ok">>, <<"close", "gate">>, <<"s503", "gate">>,
              <<"hang", "gate">>, <<"close", "gateclose">>, <<"close", "close", "close", "close", "close">>,
-             <<"s503", "s503", "s503", "s503", "s503">>, <<"hang", "hang">>, <<"gate", "ok">>, <<"gateclose", "ok">> }
+             <<"s503", "s503", "s503", "s503", "s503">>, <<"hang", "hang">>, <<"s503", "hang">>, <<"s503", "close">>, <<"gate", "ok">>, <<"gateclose", "ok">> }
 Clusters == {"direct", "r1", "r2", "all"}
 
 Has(s, b) == \E i \in DOMAIN s : s[i] = b
